@@ -12,6 +12,8 @@ CONSTANTS
   ShadowRejects = TRUE
   LeakBudgetFailure = FALSE
   LoopCapOff = FALSE
+  V6Set <- V6Off
+  DetachedFresh = FALSE
   Emit = FALSE
 SPECIFICATION Spec
 INVARIANTS TypeOK WithinBudget OverBudgetIsPrivate ShadowEqualsOff EnforceIsPrefix LocalBelowW
